@@ -194,13 +194,6 @@ Proof.
   repeat rewrite <- app_assoc. reflexivity.
 Qed.
 
-(* a byte string that is exactly one complete keep-alive (non-upgrade) request *)
-Definition complete_keepalive_request (ipp : bytes -> option bytes) (p : peer) (r : bytes) : bool :=
-  match parse_request_flat ipp p r with
-  | Ok (q, []) => keep_alive_of q && negb (is_upgrade q)
-  | _ => false
-  end.
-
 (* F01: two complete keep-alive requests delivered by ONE read: the second is never answered, although the same two
    requests delivered by two reads are both answered *)
 Theorem conn_readahead_refuted :
@@ -219,9 +212,6 @@ Qed.
 (* ================================================================================================================ *)
 (* Part 2: one iteration of the loop                                                                                  *)
 (* ================================================================================================================ *)
-
-Definition starts_with_timeout (inp : list (option bytes)) : bool :=
-  match inp with None :: _ => true | _ => false end.
 
 Section Step.
 Variables (ipp : bytes -> option bytes) (rs : list croute) (date : bytes) (p : peer).
@@ -474,3 +464,198 @@ Proof.
 Qed.
 
 End Step.
+
+(* ================================================================================================================ *)
+(* Part 5: one response per request, in order, nothing dropped or re-interpreted, on aligned input                    *)
+(* ================================================================================================================ *)
+Section Main.
+Variables (ipp : bytes -> option bytes) (rs : list croute) (date : bytes) (p : peer).
+
+Lemma aligned_input_cons cs css tail : aligned_input (cs :: css) tail = map Some cs ++ aligned_input css tail.
+Proof. unfold aligned_input. cbn [map concat]. now rewrite <- app_assoc. Qed.
+
+Lemma wf_aligned_input css reqs tail : Forall2 (one_request ipp p) css reqs -> wf_input tail ->
+  wf_input (aligned_input css tail).
+Proof.
+  induction 1 as [|cs req css reqs [Wc _] _ IH]; intro Wt; [exact Wt|].
+  rewrite aligned_input_cons. apply wf_input_app. split; [now apply wf_input_map_some | now apply IH].
+Qed.
+
+Lemma wf_take_chunks inp : wf_input inp -> wf_chunks (fst (take_chunks inp)) /\ wf_input (snd (take_chunks inp)).
+Proof.
+  intro W. destruct (take_chunks_spec inp) as [Hi _]. rewrite Hi in W. apply wf_input_app in W.
+  destruct W as [W1 W2]. split; [now apply wf_input_map_some | assumption].
+Qed.
+
+Lemma conn_loop_aligned : forall css reqs, Forall2 (one_request ipp p) css reqs ->
+  forall tail f out, wf_input tail -> (in_bytes (aligned_input css tail) < f)%nat ->
+  conn_loop f ipp rs date p (aligned_input css tail) out =
+  (out ++ fst (expected rs date reqs (serve_conn ipp rs date p tail)),
+   snd (expected rs date reqs (serve_conn ipp rs date p tail))).
+Proof.
+  induction 1 as [|cs req css reqs [Wc HF] HA IH]; intros tail f out Wt Hf.
+  - unfold aligned_input in *. cbn [map concat app expected] in *.
+    rewrite conn_loop_out, (serve_conn_eq ipp rs date p f tail Wt Hf). reflexivity.
+  - pose proof (wf_aligned_input css reqs tail HA Wt) as Wr.
+    rewrite aligned_input_cons in *.
+    destruct f as [|f]; [lia|].
+    assert (E0 : starts_with_timeout (map Some cs ++ aligned_input css tail) = false)
+      by (destruct cs; [discriminate HF|reflexivity]).
+    destruct (wf_take_chunks _ Wr) as [Wm _].
+    destruct (parse_request_chunked_exact ipp p cs _ req Wc Wm HF) as (br & HP & _ & Hin).
+    rewrite (conn_loop_unfold _ _ _ _ _ _ _ E0), take_chunks_app_some. cbn [fst snd]. rewrite HP.
+    cbn [expected]. destruct (is_upgrade req); [cbn [fst snd]; now rewrite app_nil_r|].
+    destruct (respond rs date req) as [resp|]; [|cbn [fst snd]; now rewrite app_nil_r].
+    destruct (keep_alive_of req); [|reflexivity].
+    rewrite Hin, <- (proj1 (take_chunks_spec (aligned_input css tail))).
+    rewrite IH; [|assumption|].
+    + cbn [fst snd]. rewrite <- app_assoc. reflexivity.
+    + rewrite in_bytes_app, in_bytes_map_some in Hf. apply parse_request_flat_progress in HF. lia.
+Qed.
+
+(* THE MAIN THEOREM.  Request i arrives as the reads cs_i (each exactly one complete request for the flat parser), then
+   `tail`.  The connection writes what the specification `expected` says for the parsed requests — one response per
+   request, in request order, for the maximal prefix that stays open — and then behaves on `tail` as a fresh wait would. *)
+Theorem conn_one_response_per_request : forall (css : list chunks) (reqs : list request) (tail : list (option bytes)),
+  Forall2 (one_request ipp p) css reqs -> wf_input tail ->
+  serve_conn ipp rs date p (aligned_input css tail) = expected rs date reqs (serve_conn ipp rs date p tail).
+Proof.
+  intros css reqs tail HA Wt. unfold serve_conn at 1.
+  rewrite (conn_loop_aligned css reqs HA tail); [|assumption|].
+  - cbn [app]. now destruct (expected rs date reqs (serve_conn ipp rs date p tail)).
+  - pose proof (in_bytes_le_weight (aligned_input css tail)). lia.
+Qed.
+
+Lemma serve_conn_nil : serve_conn ipp rs date p [] = ([], EClosedByClient).
+Proof. reflexivity. Qed.
+
+Lemma serve_conn_timeout t : serve_conn ipp rs date p (None :: t) = ([frame_408 date], ETimeout).
+Proof. reflexivity. Qed.
+
+(* the client closes after its last request *)
+Corollary conn_output_closed : forall css reqs, Forall2 (one_request ipp p) css reqs ->
+  fst (serve_conn ipp rs date p (aligned_input css [])) = expected_out rs date reqs /\
+  snd (serve_conn ipp rs date p (aligned_input css [])) = expected_ending rs date reqs.
+Proof.
+  intros css reqs HA. rewrite (conn_one_response_per_request css reqs [] HA (Forall_nil _)), serve_conn_nil. auto.
+Qed.
+
+(* ---- what `expected` is: the responses of the maximal prefix of requests that keep the connection open ---- *)
+Lemma stays_open_dec req : {stays_open rs date req} + {~ stays_open rs date req}.
+Proof.
+  unfold stays_open. destruct (is_upgrade req); [right; intros (H & _); discriminate|].
+  destruct (respond rs date req); [|right; intros (_ & H & _); congruence].
+  destruct (keep_alive_of req); [left; repeat split; discriminate | right; intros (_ & _ & H); discriminate].
+Qed.
+
+Lemma expected_all_open reqs k : Forall (stays_open rs date) reqs ->
+  expected rs date reqs k = (flat_map (response_of rs date) reqs ++ fst k, snd k).
+Proof.
+  induction 1 as [|req reqs (HU & HR & HK) _ IH]; cbn [expected flat_map app]; [now destruct k|].
+  unfold response_of at 1. rewrite HU, HK. destruct (respond rs date req) as [resp|]; [|congruence].
+  rewrite IH. reflexivity.
+Qed.
+
+Lemma expected_first_stop reqs1 req reqs2 k : Forall (stays_open rs date) reqs1 -> ~ stays_open rs date req ->
+  expected rs date (reqs1 ++ req :: reqs2) k =
+  (flat_map (response_of rs date) reqs1 ++ (if is_upgrade req then [] else response_of rs date req),
+   stop_ending rs date req).
+Proof.
+  intros H Hn. induction H as [|r reqs1 (HU & HR & HK) _ IH]; cbn [expected flat_map app].
+  - unfold stop_ending, response_of, stays_open in *. destruct (is_upgrade req); [reflexivity|].
+    destruct (respond rs date req); [|reflexivity]. destruct (keep_alive_of req); [|reflexivity].
+    exfalso. apply Hn. repeat split; discriminate.
+  - unfold response_of at 1. rewrite HU, HK. destruct (respond rs date r) as [resp|]; [|congruence].
+    rewrite IH. reflexivity.
+Qed.
+
+Lemma response_of_open_length req : stays_open rs date req -> length (response_of rs date req) = 1%nat.
+Proof. intros (_ & HR & _). unfold response_of. destruct (respond rs date req); [reflexivity|congruence]. Qed.
+
+Lemma flat_map_open_length reqs : Forall (stays_open rs date) reqs ->
+  length (flat_map (response_of rs date) reqs) = length reqs.
+Proof.
+  induction 1 as [|req reqs H _ IH]; cbn [flat_map length]; [reflexivity|].
+  rewrite app_length, IH, (response_of_open_length req H). reflexivity.
+Qed.
+
+Lemma expected_ending_closed_iff reqs :
+  snd (expected rs date reqs ([], EClosedByClient)) = EClosedByClient <-> Forall (stays_open rs date) reqs.
+Proof.
+  induction reqs as [|req reqs IH]; cbn [expected]; [split; [constructor|reflexivity]|].
+  split.
+  - destruct (is_upgrade req) eqn:EU; [discriminate|]. destruct (respond rs date req) eqn:ER; [|discriminate].
+    destruct (keep_alive_of req) eqn:EK; [|discriminate]. cbn [snd]. intro H.
+    constructor; [unfold stays_open; rewrite EU, ER, EK; repeat split; discriminate|].
+    now apply IH.
+  - intro H. inversion H as [|? ? (HU & HR & HK) Hrest]; subst. rewrite HU, HK.
+    destruct (respond rs date req); [|congruence]. cbn [snd]. now apply IH.
+Qed.
+
+(* every request answered, in order, exactly one response each; the connection is still open when the client closes it *)
+Theorem conn_all_answered : forall css reqs, Forall2 (one_request ipp p) css reqs ->
+  Forall (stays_open rs date) reqs ->
+  serve_conn ipp rs date p (aligned_input css []) = (flat_map (response_of rs date) reqs, EClosedByClient) /\
+  length (fst (serve_conn ipp rs date p (aligned_input css []))) = length reqs.
+Proof.
+  intros css reqs HA HO.
+  rewrite (conn_one_response_per_request css reqs [] HA (Forall_nil _)), serve_conn_nil, (expected_all_open _ _ HO).
+  cbn [fst snd]. rewrite app_nil_r. split; [reflexivity|]. now apply flat_map_open_length.
+Qed.
+
+(* the first request after which the connection does not stay open ends it; later requests are not looked at *)
+Theorem conn_stops_at_first : forall css reqs1 req reqs2 tail,
+  Forall2 (one_request ipp p) css (reqs1 ++ req :: reqs2) -> wf_input tail ->
+  Forall (stays_open rs date) reqs1 -> ~ stays_open rs date req ->
+  serve_conn ipp rs date p (aligned_input css tail) =
+  (flat_map (response_of rs date) reqs1 ++ (if is_upgrade req then [] else response_of rs date req),
+   stop_ending rs date req).
+Proof.
+  intros css reqs1 req reqs2 tail HA Wt HO Hn.
+  rewrite (conn_one_response_per_request css _ tail HA Wt). now apply expected_first_stop.
+Qed.
+
+(* the connection is still open after the last response iff every request was well-formed, answered and keep-alive *)
+Theorem conn_stays_open_iff : forall css reqs, Forall2 (one_request ipp p) css reqs ->
+  (snd (serve_conn ipp rs date p (aligned_input css [])) = EClosedByClient <-> Forall (stays_open rs date) reqs).
+Proof.
+  intros css reqs HA. rewrite (conn_one_response_per_request css reqs [] HA (Forall_nil _)), serve_conn_nil.
+  apply expected_ending_closed_iff.
+Qed.
+
+(* two segmentations that respect request boundaries and carry the same request byte strings give the same output *)
+Lemma one_request_same_bytes : forall css1 reqs, Forall2 (one_request ipp p) css1 reqs ->
+  forall css2, Forall wf_chunks css2 -> map (@concat N) css1 = map (@concat N) css2 ->
+  Forall2 (one_request ipp p) css2 reqs.
+Proof.
+  induction 1 as [|cs req css reqs [Wc HF] _ IH]; intros css2 W2 E; destruct css2 as [|cs2 css2]; try discriminate;
+    [constructor|].
+  cbn [map] in E. injection E as E1 E2. inversion W2; subst. constructor.
+  - split; [assumption|]. now rewrite <- E1.
+  - now apply IH.
+Qed.
+
+Theorem conn_segmentation_independent : forall css1 css2 reqs tail,
+  Forall2 (one_request ipp p) css1 reqs -> Forall wf_chunks css2 ->
+  map (@concat N) css1 = map (@concat N) css2 -> wf_input tail ->
+  serve_conn ipp rs date p (aligned_input css1 tail) = serve_conn ipp rs date p (aligned_input css2 tail).
+Proof.
+  intros css1 css2 reqs tail HA W2 E Wt.
+  rewrite (conn_one_response_per_request css1 reqs tail HA Wt).
+  rewrite (conn_one_response_per_request css2 reqs tail (one_request_same_bytes _ _ HA _ W2 E) Wt). reflexivity.
+Qed.
+
+(* the i-th parsed request is the flat parse of exactly the bytes of the reads cs_i: bytes of one request are never
+   dropped and never interpreted as part of another (the reader in front of the next request is empty-handed) *)
+Theorem conn_bytes_not_reinterpreted : forall cs req later,
+  one_request ipp p cs req -> wf_input later ->
+  exists br, parse_request_chunked ipp p (fst (take_chunks (map Some cs ++ later))) = Ok (req, br) /\
+             buf br = [] /\ map Some (inner br) ++ snd (take_chunks (map Some cs ++ later)) = later.
+Proof.
+  intros cs req later [Wc HF] Wl. rewrite take_chunks_app_some. cbn [fst snd].
+  destruct (wf_take_chunks _ Wl) as [Wm _].
+  destruct (parse_request_chunked_exact ipp p cs _ req Wc Wm HF) as (br & HP & Hb & Hin).
+  exists br. rewrite Hin, <- (proj1 (take_chunks_spec later)). auto.
+Qed.
+
+End Main.
